@@ -26,6 +26,11 @@ def plan(tier, seed):
             gs.append(Group('DTCWTForward[J=%d,%s]' % (J, 'names' if names else 'tuples'), MD.g_dtcwt_forward, (J, 2, -1, 'default', names),
                             level='bounded-in-J', functions=[(T2, 'DTCWTForward.__init__'), (T2, 'DTCWTForward.forward')],
                             replay=rp('dtcwt_forward')))
+    # unbounded in the number of levels: level-loop invariant with symbolic J
+    for (o, r, sk, inc) in ((2, -1, False, False), (2, -1, True, False), (2, -1, False, True), (1, 2, False, False), (5, 0, False, False)):
+        gs.append(Group('DTCWTForward[J symbolic,o=%d,ri=%d,skip=%s,include=%s]' % (o, r, sk, inc), MD.g_dtcwt_forward_symJ, (o, r, sk, inc),
+                        functions=[(T2, 'DTCWTForward.__init__'), (T2, 'DTCWTForward.forward')], replay=rp('dtcwt_forward', o_dim=o, ri_dim=r)))
+    gs.append(Group('canary:symbolic-J-step-with-exchanged-tree-filters', MD.g_dtcwt_forward_symJ, (2, -1, False, False, 'symmetric', True), canary=True))
     gs += sign_table_groups()
     gs.append(Group('canary:wrong-interleave', D.g_dt_filter, ('coldfilt', 'symmetric', False, True), canary=True))
     gs.append(Group('canary:module-lowpass-of-wrong-level', MD.g_dtcwt_forward, (2, 2, -1, 'default', True, 'symmetric', True), canary=True))
